@@ -43,6 +43,17 @@ def run(cmd, timeout=None, env=None, cwd=None, check=True, capture=True):
     return p
 
 
+def build_cli():
+    """Build the typstyle CLI binary from /repo's working tree (guard off: the CLI needs no hooks)."""
+    t0 = time.time()
+    run(["cargo", "build", "--release", "--offline", "--quiet", "-p", "typstyle", "--target-dir",
+         os.path.join(HARNESS, "target-cli")], cwd=REPO, timeout=1800, env={"CARGO_NET_OFFLINE": "true"})
+    b = os.path.join(HARNESS, "target-cli", "release", "typstyle")
+    if not os.path.exists(b):
+        raise ToolError("CLI binary missing")
+    return b, time.time() - t0
+
+
 def build_harness():
     """Rebuild the harness (and with it /repo's crates from the current working tree)."""
     t0 = time.time()
@@ -124,11 +135,11 @@ def unquote_tla_string(s):
     return "".join(out)
 
 
-def validate_traces(spec, consts, shards, workdir, jobs=8, xmx="3g", timeout=3000):
+def validate_traces(spec, consts, shards, workdir, jobs=8, xmx="3g", timeout=3000, specname="Spec"):
     """Run one TLC JVM per shard (monitor-style trace validation).
 
     Returns dict(viol=[...], events=n, checked=n, states=n, transitions=n, traces=n)."""
-    cfg = "SPECIFICATION Spec\nINVARIANT Done\nCHECK_DEADLOCK FALSE\n" + consts
+    cfg = "SPECIFICATION %s\nINVARIANT Done\nCHECK_DEADLOCK FALSE\n" % specname + consts
     shards = [s for s in shards if os.path.getsize(s) > 0]
 
     def one(i_s):
